@@ -19,7 +19,7 @@ RULE = ("worlds with three-phase mixed-sign constraint matrices (1-6 constraints
         "direction matrices (1-4 periods) scaled so that the most binding constraint sits at limit + k*tol, k in "
         "{-10,-2,-0.5,0.5,2,10}; non-trivial = probe within +-2 tolerances of a limit on a mixed-sign constraint with >=2 "
         "distinct phase angles; distinct = history signature + probe pattern")
-PROBES = ["probe", "probe_within_2tol_mixed_sign", "explicit_tolerances", "rel_tol_dominates", "linear_probe", "multi_period",
+PROBES = ["probe", "non_finite_entry_probe", "probe_within_2tol_mixed_sign", "explicit_tolerances", "rel_tol_dominates", "linear_probe", "multi_period",
           "negative_entries", "one_dim_vector", "constraint_free_world", "constraint_free_sorted_completed", "dict_omitted_rows",
           "executed_columns_checked", "invalid_schedule_warning_seen", "probe_after_reconfig", "exact_boundary_probe",
           "exactly_at_limit_plus_tol", "exact_linear_probe"]
@@ -202,6 +202,31 @@ def probe_once(out, sc, nw, iface, r, tag, cons):
                 out.add("C06/%s_vs_phasor" % kk, "%s: %s check says %s, phasor definition says %s (margin %.3e A on constraint %d, k=%s, vt=%g rt=%g, T=%d)"
                         % (tag, kk, v, want, m, j, k, vt, rt, T))
                 return
+    # a schedule with a non-finite entry (0/0 or x/0 in a scheduler's arithmetic) at a station that takes part in a
+    # constraint: its aggregate is not 'at most the limit plus tolerance', so no checker may call it feasible
+    rn = sub(sc["seed"], "nonfinite", tag, T)
+    if rn.random() < 0.25:
+        members = sorted({i for rowc, _ in cons for i, c in enumerate(rowc) if c})
+        if members:
+            i = rn.choice(members)
+            tcol = rn.randrange(T)
+            bad = rn.choice([float("nan"), float("nan"), float("inf"), float("-inf")])
+            AN = np.array(M, dtype=float)
+            AN[i, tcol] = bad
+            dn = {ids[k]: [float(x) for x in AN[k]] for k in range(N)}
+            out.probe("non_finite_entry_probe")
+            with np.errstate(all="ignore"):
+                nres = {
+                    "network": bool(nw.is_feasible(AN)), "interface": bool(iface.is_feasible(dn)),
+                    "algorithm": bool(sut.algo_utils.infrastructure_constraints_feasible(AN, infra, False, vt, rt)),
+                    "network_linear": bool(nw.is_feasible(AN, True)),
+                    "algorithm_linear": bool(sut.algo_utils.infrastructure_constraints_feasible(AN, infra, True, vt, rt)),
+                }
+            for kk, v in nres.items():
+                if v:
+                    out.add("C06/non_finite_accepted", "%s: %s check calls a schedule with %r at station %s (member of a constraint) feasible"
+                            % (tag, kk, bad, ids[i]))
+                    return
     # linear relaxation: agreement + conservativeness (non-negative schedules)
     if not neg and r.random() < 0.6:
         out.probe("linear_probe")
